@@ -69,7 +69,7 @@ def showSpecState (d : Spec.Design) (σ : Spec.Val) (m : Spec.MState) : String :
   let all : Spec.Val := (σ ++ ctl).map fun p => match m.bankVals.lookup p.1 with
     | some v => (p.1, v)
     | none => p
-  let vals := sortStrings (all.map fun p => s!"{p.1}={p.2}/{showWidth ((d.Γ p.1).getD .unlimited)}")
+  let vals := (sortByName all).map fun p => s!"{p.1}={p.2}/{showWidth ((d.Γ p.1).getD .unlimited)}"
   "{" ++ ",".intercalate vals ++ "|" ++ ",".intercalate (m.regs.map (fun (n : Nat) => s!"{n}")) ++ "|" ++
     ",".intercalate (m.used.map fun a => s!"{a}:{m.mem a}") ++ "|" ++
     (match m.status with | some n => s!"{n}" | none => "-") ++ "}"
